@@ -367,8 +367,10 @@ def correct_names(name, val):
     :param val: the variable name we are modifying
     :return: the new name to use
     """
-    prefix = "_" + name
-    if val.startswith(prefix):
+    # __x written in class K (or _K) is stored as _K__x; a name that only starts with the class name (_K_id, _Ks) is
+    # nobody's private name and keeps its own name
+    prefix = "_" + name.lstrip("_")
+    if val.startswith(prefix + "__") and not val.endswith("__"):
         return val[len(prefix):]
     return val
 
